@@ -144,12 +144,35 @@ static void case_big(uint64_t idx) {
     free(base);
 }
 
+/* medium and long buffers at every start offset within a cache line: code paths that are only taken from some length on
+ * (unrolled or prefetching loops) and only for some alignments of the start */
+static const uint32_t MID_LEN[12] = {4097, 8192, 16384 + 5, 32768, 65535, 65536, 65537, 65536 + 64, 100003, 131072, 262144 + 9, 1048576 + 3};
+static void case_mid(uint64_t k) {
+    rng_t r; rng_seed(&r, vmix(g_seed, 0xC18000 + k));
+    uint32_t n = MID_LEN[k % 12];
+    uint8_t *base = NULL;
+    if (posix_memalign((void **) &base, 4096, (size_t) n + 128)) return;
+    for (int align = 0; align < 64; ++align) {
+        fill(base + align, n, 3, rng_u64(&r));
+        uint32_t ref = jd_crc32c(base + align, n);
+        if (align == 0 && jd_crc32c(base, 4096) != jd_crc32c_bitwise(base, 4096)) v_violation("C18", "reference-self-test", NULL, "table reference disagrees with bit-serial reference");
+        uint32_t hw = jls_crc32c(base + align, n), sw = jls_crc32c_sw(base + align, n);
+        char key[64], wj[96]; snprintf(wj, sizeof(wj), "{\"length\":%u,\"align\":%d}", n, align);
+        if (hw != ref) { snprintf(key, sizeof(key), "hw-mismatch|mid|%s|align%%8=%d", n < 65536 ? "<64K" : ">=64K", align % 8); v_violation("C18", key, wj, "jls_crc32c over %u bytes at cache-line offset %d = 0x%08x, reference 0x%08x", n, align, hw, ref); }
+        if (sw != ref) { snprintf(key, sizeof(key), "sw-mismatch|mid|%s|align%%8=%d", n < 65536 ? "<64K" : ">=64K", align % 8); v_violation("C18", key, wj, "table jls_crc32c over %u bytes at cache-line offset %d = 0x%08x, reference 0x%08x", n, align, sw, ref); }
+        v_count("C18", "mid_buffers", 1);
+        v_feature("C18", 1, "mid|len=%u|align=%d", n, align);
+    }
+    free(base);
+}
+
 static void run_case(uint64_t idx, void *vctx) {
     ctx_t *c = vctx;
     if (idx < 64) case_lengths(idx, c);
     else if (idx == 64) case_tables();
     else if (idx < 69) case_headers(idx - 65, c->thorough ? 25000 : 2500);
-    else case_big(idx - 69);
+    else if (idx < 81) case_mid(idx - 69);
+    else case_big(idx - 81);
 }
 
 int main(int argc, char **argv) {
